@@ -5,23 +5,26 @@
      {"ev":"reset"}
      {"ev":"final","h":..}  observation after the driver released every handler and cancelled every RPC
      {"ev":"stuck"}   the server could not be stopped after the behaviour (the driver process gives up)
-     {"ev":"step","a":"start"|"cancel"|"finish"|"gstop"|"hstop"|"fstop"|"gfinish","c":c,"r":r,"k":code,
+     {"ev":"step","a":"start"|"startbig"|"read"|"cancel"|"finish"|"gstop"|"hstop"|"fstop"|"gfinish","c":c,"r":r,"k":code,
       "h":[[..]],   handler state per connection / RPC: "none" | "running" | "returned"
       "cx":[[..]],  the handler saw ctx.Done() while running
       "cl":[[..]],  client result: 98 not started, 99 no result yet, else the status code
       "gs":"no"|"called"|"returned", "sr": same for Stop,
       "maxrun":[..] maximum number of simultaneously running handlers seen per connection,
-      "gsrun":n     handlers running at the moment GracefulStop returned}
+      "gsrun":n     handlers running at the moment GracefulStop returned,
+      "dl":[[..]]   bytes of response data the client application received}
    Property clauses (Mark) are stated over the driver's own inputs and these observations only;
    the model state of ServerLifecycle is advanced alongside and compared (Drift). *)
 EXTENDS ServerLifecycle, TraceIO
-VARIABLES l, started, cancelledIn, finOk, gsIn, stopIn, openAtStop
-tvars == <<l, started, cancelledIn, finOk, gsIn, stopIn, openAtStop>>
+VARIABLES l, started, cancelledIn, finOk, gsIn, stopIn, openAtStop, bigIn, readIn
+tvars == <<l, started, cancelledIn, finOk, gsIn, stopIn, openAtStop, bigIn, readIn>>
+ivars == <<started, cancelledIn, finOk, gsIn, stopIn, openAtStop, bigIn, readIn>>
+BigSize == 153600     \* bytes of the message a late-reader RPC's handler sends (client stream window: 65535)
 
 Ev == Trace[l]
 M0(v) == [c \in Conns |-> [r \in Rpcs |-> v]]
 InitIn == /\ started = M0("no") /\ cancelledIn = M0(FALSE) /\ finOk = M0(NoCode)
-          /\ gsIn = FALSE /\ stopIn = FALSE /\ openAtStop = M0(FALSE)
+          /\ gsIn = FALSE /\ stopIn = FALSE /\ openAtStop = M0(FALSE) /\ bigIn = M0(FALSE) /\ readIn = M0(FALSE)
 TInit == l = 1 /\ InitRegs /\ Init /\ InitIn
 
 \* the model's view of the observables
@@ -30,6 +33,8 @@ Mh  == [c \in Conns |-> [r \in Rpcs |-> IF sv'[c][r] \in {"none", "pending"} THE
 All(P(_, _)) == \A c \in Conns, r \in Rpcs : P(c, r)
 
 Model(e) == CASE e.a = "start"  -> Start(e.c, e.r)
+              [] e.a = "startbig" -> StartBig(e.c, e.r)
+              [] e.a = "read"   -> Read(e.c, e.r)
               [] e.a = "cancel" -> Cancel(e.c, e.r)
               [] e.a = "finish" -> Finish(e.c, e.r, e.k)
               [] e.a = "gstop"  -> GStop
@@ -40,12 +45,21 @@ Model(e) == CASE e.a = "start"  -> Start(e.c, e.r)
 Inputs(e) ==
   /\ gsIn' = (gsIn \/ e.a \in {"gstop", "gfinish"})
   /\ stopIn' = (stopIn \/ e.a \in {"hstop", "fstop"})
-  /\ started' = IF e.a = "start"
+  /\ bigIn' = IF e.a = "startbig" THEN [bigIn EXCEPT ![e.c][e.r] = TRUE] ELSE bigIn
+  /\ readIn' = IF e.a = "read" THEN [readIn EXCEPT ![e.c][e.r] = TRUE] ELSE readIn
+  /\ started' = IF e.a \in {"start", "startbig"}
                   THEN [started EXCEPT ![e.c][e.r] = IF gsIn THEN "lategs" ELSE IF stopIn THEN "latestop" ELSE "early"]
                   ELSE started
   /\ cancelledIn' = IF e.a = "cancel" THEN [cancelledIn EXCEPT ![e.c][e.r] = TRUE] ELSE cancelledIn
-  /\ finOk' = IF e.a \in {"finish", "gfinish"} /\ started[e.c][e.r] = "early" /\ ~cancelledIn[e.c][e.r] /\ ~stopIn
-                THEN [finOk EXCEPT ![e.c][e.r] = e.k] ELSE finOk
+  \* finOk: the status the client must see: set when the handler returns it for an RPC that the driver
+  \* neither cancelled nor killed by Stop; withdrawn when the driver cancels, or stops the server before a
+  \* late reader has read
+  /\ finOk' = CASE e.a \in {"finish", "gfinish"} /\ started[e.c][e.r] = "early" /\ ~cancelledIn[e.c][e.r] /\ ~stopIn
+                      -> [finOk EXCEPT ![e.c][e.r] = e.k]
+                 [] e.a = "cancel" -> [finOk EXCEPT ![e.c][e.r] = NoCode]
+                 [] e.a \in {"hstop", "fstop"}
+                      -> [c \in Conns |-> [r \in Rpcs |-> IF bigIn[c][r] /\ ~readIn[c][r] THEN NoCode ELSE finOk[c][r]]]
+                 [] OTHER -> finOk
   /\ openAtStop' = IF e.a \in {"hstop", "fstop"}
                      THEN [c \in Conns |-> [r \in Rpcs |->
                             started[c][r] = "early" /\ ~cancelledIn[c][r] /\ finOk[c][r] = NoCode]]
@@ -55,11 +69,16 @@ Starved(e, st, sp) == ~sp /\ \E c \in Conns, r \in Rpcs :
              /\ st[c][r] = "early" /\ e.h[c][r] = "none"
              /\ Cardinality({q \in Rpcs : e.h[c][q] = "running"}) < Limit
 
+\* a late reader whose application has not read yet (nor cancelled): it has no result to show
+Unread(c, r) == bigIn'[c][r] /\ ~readIn'[c][r] /\ ~cancelledIn'[c][r]
+
 Clauses(e) ==
   /\ Mark(\E c \in Conns : e.maxrun[c] > Limit, "C25_Sem", l)
   /\ Mark(e.gs = "returned" /\ (e.gsrun > 0 \/ \E c \in Conns, r \in Rpcs : e.h[c][r] = "running"),
           "C25_GracefulWaits", l)
-  /\ Mark(gsIn' /\ \E c \in Conns, r \in Rpcs : finOk'[c][r] # NoCode /\ e.cl[c][r] # finOk'[c][r],
+  /\ Mark(gsIn' /\ \E c \in Conns, r \in Rpcs :
+             /\ finOk'[c][r] # NoCode /\ ~Unread(c, r)
+             /\ (e.cl[c][r] # finOk'[c][r] \/ (bigIn'[c][r] /\ e.dl[c][r] # BigSize)),
           "C25_GracefulServes", l)
   \* at quiescence an accepted RPC has its handler unless the connection's quota is used up; otherwise it
   \* can never complete with the handler's status and no GracefulStop can return any more (lost wake-up
@@ -69,7 +88,7 @@ Clauses(e) ==
           "C25_NoAcceptAfter", l)
   /\ Mark(stopIn' /\ \E c \in Conns, r \in Rpcs : e.h[c][r] = "running" /\ ~e.cx[c][r],
           "C25_StopCancelsCtx", l)
-  /\ Mark(stopIn' /\ \E c \in Conns, r \in Rpcs : openAtStop'[c][r] /\ e.cl[c][r] \in {OKc, 99},
+  /\ Mark(stopIn' /\ \E c \in Conns, r \in Rpcs : openAtStop'[c][r] /\ ~Unread(c, r) /\ e.cl[c][r] \in {OKc, 99},
           "C25_StopClientNonOK", l)
   /\ Drift(e.h # Mh \/ e.cl # Mcl \/ e.gs # gs', "C25_ObservationDiffersFromModel", l)
   /\ Drift(e.h = Mh /\ \E c \in Conns, r \in Rpcs : e.h[c][r] = "running" /\ e.cx[c][r] # ctxd'[c][r],
@@ -77,6 +96,7 @@ Clauses(e) ==
 
 ResetAll == /\ cl' = M0("idle") /\ clcode' = M0(NoCode) /\ sv' = M0("none") /\ ctxd' = M0(FALSE)
             /\ hcode' = M0(NoCode) /\ gs' = "no" /\ stopped' = FALSE /\ late' = M0(FALSE) /\ killed' = M0(FALSE)
+            /\ big' = M0(FALSE) /\ blk' = M0(FALSE) /\ bigIn' = M0(FALSE) /\ readIn' = M0(FALSE)
             /\ started' = M0("no") /\ cancelledIn' = M0(FALSE) /\ finOk' = M0(NoCode)
             /\ gsIn' = FALSE /\ stopIn' = FALSE /\ openAtStop' = M0(FALSE)
 
@@ -84,7 +104,7 @@ TNext == /\ l <= TLen /\ l' = l + 1 /\ Consumed(l)
          /\ CASE Ev.ev = "reset" -> ResetAll
               [] Ev.ev = "step"  -> Model(Ev) /\ Inputs(Ev) /\ Clauses(Ev)
               [] Ev.ev = "final" -> /\ Mark(Starved(Ev, started, stopIn), "C25_AcceptedNeverServed", l)
-                                    /\ UNCHANGED vars /\ UNCHANGED <<started, cancelledIn, finOk, gsIn, stopIn, openAtStop>>
-              [] Ev.ev = "stuck" -> Drift(TRUE, "C25_DriverStuckInCleanup", l) /\ UNCHANGED vars /\ UNCHANGED <<started, cancelledIn, finOk, gsIn, stopIn, openAtStop>>
-              [] Ev.ev = "panic" -> Mark(TRUE, "NoPanic", l) /\ UNCHANGED vars /\ UNCHANGED <<started, cancelledIn, finOk, gsIn, stopIn, openAtStop>>
+                                    /\ UNCHANGED vars /\ UNCHANGED ivars
+              [] Ev.ev = "stuck" -> Drift(TRUE, "C25_DriverStuckInCleanup", l) /\ UNCHANGED vars /\ UNCHANGED ivars
+              [] Ev.ev = "panic" -> Mark(TRUE, "NoPanic", l) /\ UNCHANGED vars /\ UNCHANGED ivars
 ====
